@@ -125,7 +125,7 @@ def _cases(ctx, budget=1):
 
 # ------------------------------------------------------------------------------------------------ model side
 
-HEADER = 'From HailV Require Import Common.Prelude Gather.Model.\nOpen Scope Z_scope.\n'
+HEADER = 'From HailV Require Import Common.Prelude Gather.Model Gather.OnlineModel.\nOpen Scope Z_scope.\n'
 
 
 def _act_lit(a):
@@ -138,7 +138,22 @@ def _act_lit(a):
     raise ValueError(a)
 
 
+def _oact_lit(a):
+    if a[0] == 'K':
+        return f'OOk {a[1]}%nat {zlit(100 + a[1])}'
+    if a[0] == 'E':
+        return f'OErr_ {a[1]}%nat {zlit(a[2])}'
+    if a[0] == 'T':
+        return f'OCancelTask {a[1]}%nat'
+    if a[0] == 'X':
+        return 'OCancelCaller'
+    raise ValueError(a)
+
+
 def _model_expr(case):
+    if case['entry'] == 'online':
+        cf = f'{{| opermits := {zlit(case["N"])}; body_raises := {"true" if case.get("body") == "raise" else "false"} |}}'
+        return f'oobserve {cf} (oinit {cf} {case["n"]}%nat) {listlit([_oact_lit(a) for a in case["acts"]])}'
     cf = f'{{| permits := {zlit(case["N"])}; md := {MODES[case["mode"]]} |}}'
     return f'observe {cf} (init {cf} {case["n"]}%nat) {listlit([_act_lit(a) for a in case["acts"]])}'
 
@@ -159,7 +174,38 @@ def _res(r):
     return ['E', 'CancelledError']
 
 
+def _fold_ostate(case, st):
+    pf = []
+    for t in st['ots']:
+        tag = _tag(t)
+        pf.append('ok' if tag == 'TOk' else 'err' if tag == 'TErr' else PF[tag])
+    c = st['ocaller']
+    ctag = _tag(c)
+    at_return = None
+    waiters = sum(1 for t in st['ots'] if _tag(t) == 'TW')
+    live = sum(1 for t in st['ots'] if _tag(t) in ('TW', 'TR'))
+    if ctag == 'KWait':
+        caller = 'P'
+    elif ctag == 'KReacq':
+        caller = 'P'
+        waiters += 1
+    else:
+        o, nrun, nalive = c[1], c[2], c[3]
+        at_return = [nrun, nalive]
+        otag = _tag(o)
+        if otag == 'OVals':
+            rs = o[1] if isinstance(o, tuple) else []
+            caller = ['V', [r[1] if _tag(r) == 'RV' else None for r in rs]]
+        elif otag == 'OErr':
+            caller = ['E', ERRN[o[1]]]
+        else:
+            caller = 'X'
+    return {'pf': pf, 'alive': live, 'value': st['ovalue'], 'waiters': waiters, 'caller': caller, 'at_return': at_return}
+
+
 def _fold_state(case, st):
+    if case['entry'] == 'online':
+        return _fold_ostate(case, st)
     pf = []
     for t in st['ts']:
         tag = _tag(t)
@@ -209,7 +255,9 @@ def _run_impl(ctx, cases):
 def _impl_view(case, o):
     v = {'pf': o['pf'], 'alive': o['alive'], 'caller': o['caller'],
          'at_return': None if o['at_return'] is None else len(o['at_return']['running'])}
-    if case['entry'] == 'gather2':
+    if case['entry'] == 'online' and o['at_return'] is not None:
+        v['at_return'] = [len(o['at_return']['running']), o['at_return']['alive']]
+    if case['entry'] in ('gather2', 'online'):
         v['value'] = o['value']
         v['waiters'] = o['waiters']
     return v
